@@ -326,6 +326,11 @@ func (x *Exec) applyContract(st *State, fc *FuncContract, args []Val, rt types.T
 		if x.w.isKnownFinding(strings.ReplaceAll(fc.Key, modPath+"/", "")+"#post."+label, "") {
 			continue // recorded as an open finding: not assumed
 		}
+		if usesPathBuiltin(ec.Src) {
+			// called()/callcount()/lastresult()/lasterr()/spawncount() speak about the callee's own path: such a clause
+			// is proved for the callee's body and means nothing in the caller's path state - it is not assumed here
+			continue
+		}
 		env2.heap = st.heap
 		g, err := env2.evalBool(ec.E)
 		if err != nil {
@@ -334,6 +339,15 @@ func (x *Exec) applyContract(st *State, fc *FuncContract, args []Val, rt types.T
 		st.assume(g)
 	}
 	k(st, res)
+}
+
+func usesPathBuiltin(src string) bool {
+	for _, b := range []string{"called(", "callcount(", "lastresult(", "lasterr(", "spawncount("} {
+		if strings.Contains(src, b) {
+			return true
+		}
+	}
+	return false
 }
 
 // havocMods forgets what the callee may modify.
